@@ -47,6 +47,14 @@ def renumber (swbs : List Nat) (lab : Nat → Nat) : Nat → Nat := fun s =>
 def busMap (swbs : List Nat) (brs : List Breaker) : List (Nat × Nat) :=
   swbs.map fun s => (s, renumber swbs (group brs) s)
 
+/-- The power balance keeps its bus sums under the numbers `1..n`, `n` the number of switchboards
+(`_get_sum_buses`): a switchboard's power can be filed iff its bus number lies in that range. -/
+def sumDefined (swbs : List Nat) (bus : Nat) : Bool := decide (1 ≤ bus ∧ bus ≤ swbs.length)
+
+/-- The map of a plant without breakers as found (D26): the only switchboard's bus carried the
+switchboard's own number. -/
+def busMapSingleLegacy (s : Nat) : List (Nat × Nat) := [(s, s)]
+
 /-! ### Status series -/
 
 /-- Column `t` of the status matrix (one row per breaker). -/
